@@ -116,12 +116,17 @@ func Harness_C05_FinalOutputsFrame() {
 	assumeBridgeInv(ctx, k, b)
 	verifAssume(i >= 1 && i < k.nextOut(ctx, b)) // H3: outputs occupy exactly 1..next-1
 	wasFinal := refFinalStrict(ctx.BlockTime(), out.L1BlockTime, cfg.FinalizationPeriod)
+	// the module's own finality predicate — the one withdrawals are finalized against — in the pre-state
+	usable, uerr := k.IsFinalized(ctx, b, i)
 	st := anyStep(ms, ctx)
 	out2, err2 := k.GetOutputProposal(ctx, b, i)
 	if wasFinal {
 		verifReach("final output observed")
 		verifAssert("a final output is never deleted", err2 == nil)
 		verifAssert("a final output is never replaced or altered", sameOutput(out, out2))
+	}
+	if uerr == nil && usable {
+		verifAssert("an output withdrawals can already be finalized against is never deleted", err2 == nil)
 	}
 	if err2 != nil {
 		verifReach("output deleted")
